@@ -1327,3 +1327,77 @@ func ruleQuoteAgrees(c *Ctx, r *Report) {
 	}
 	r.analysed(rule, fname(q))
 }
+
+// ---------------------------------------------------------------------------
+// R-FUNCTOR-NOT-OPERAND (C06; added with fix F32): in functional notation f(a1,...,an) the functor is not an
+// operand, whatever operators surround the compound. The functor is written under options in which it
+// cannot be taken for an operator: the options handed to the functor's WriteTerm are a local copy whose
+// operator table (field ops) has been cleared. With the compound's own options an operator functor next to
+// an operator gets the parentheses of a bare operator atom: 1-(-)(a,b,c), which does not read.
+
+func ruleFunctorNotOperand(c *Ctx, r *Report) {
+	const rule = "R-FUNCTOR-NOT-OPERAND"
+	fn := c.fn("writeCompoundFunctionalNotation")
+	if fn == nil {
+		r.undecided(rule, "anchor:writeCompoundFunctionalNotation", "-", "locate writeCompoundFunctionalNotation", "not found")
+		return
+	}
+	desc := "the functor of functional notation is written under options without an operator table"
+	var site *ssa.Call
+	eachInstr(fn, func(in ssa.Instruction) {
+		call, ok := in.(*ssa.Call)
+		if !ok || !call.Call.IsInvoke() && (call.Call.StaticCallee() == nil || call.Call.StaticCallee().Name() != "WriteTerm") {
+			return
+		}
+		if call.Call.IsInvoke() && call.Call.Method.Name() != "WriteTerm" {
+			return
+		}
+		// the receiver is the result of Functor()
+		recv := call.Call.Value
+		if !call.Call.IsInvoke() && len(call.Call.Args) > 0 {
+			recv = call.Call.Args[0]
+		}
+		for _, l := range c.originSet(recv) {
+			if fc, _ := callOfValue(l); fc != nil && fc.Call.IsInvoke() && fc.Call.Method.Name() == "Functor" {
+				site = call
+			}
+		}
+	})
+	key := fname(fn) + "/functor-options"
+	if site == nil {
+		r.bad(rule, key, c.Pos(fn.Pos()), desc, "no WriteTerm call on the functor found")
+		return
+	}
+	// the *WriteOptions argument
+	var optArg ssa.Value
+	for _, a := range site.Call.Args {
+		if isNamedIn(deref(a.Type()), enginePkgPath, "WriteOptions") && isPtr(a.Type()) {
+			optArg = a
+		}
+	}
+	cleared := false
+	if al, ok := optArg.(*ssa.Alloc); ok {
+		eachInstr(fn, func(in ssa.Instruction) {
+			st, ok := in.(*ssa.Store)
+			if !ok {
+				return
+			}
+			fa, ok := st.Addr.(*ssa.FieldAddr)
+			if !ok || fa.X != ssa.Value(al) || fieldName(fa) != "ops" {
+				return
+			}
+			if k, ok := st.Val.(*ssa.Const); ok && k.Value == nil {
+				sb, cb := st.Block(), site.Block()
+				if (sb == cb && instrIndex(st) < instrIndex(site)) || (sb != cb && sb.Dominates(cb)) {
+					cleared = true
+				}
+			}
+		})
+	}
+	if cleared {
+		r.ok(rule, key, c.at(site), desc, "a local copy of the options with ops = nil", true)
+	} else {
+		r.bad(rule, key, c.at(site), desc, "the functor is written under the compound's own options: as the operand of an operator an operator functor is parenthesised like a bare atom, (-)(a,b,c), which is not a term")
+	}
+	r.analysed(rule, fname(fn))
+}
